@@ -181,13 +181,22 @@ func (w *world) runBlock(txs []btx) []string {
 	w.seq = append(w.seq, fmt.Sprintf("# real block %d (signed transactions, then FinalizeBlock + Commit): %s", w.s.Ctx.BlockHeight(), strings.Join(ls, " ; ")))
 	out := make([]string, len(txs))
 	for i, b := range txs {
-		if e := w.ethTx(b.signer, b.data); e == "" {
-			out[i] = "ok"
-		} else if strings.HasPrefix(e, "panic:") {
-			w.violate("a staking-precompile transaction panicked inside a real block: " + b.line + ": " + e)
+		// `apply` runs the signed transaction through the EVM message server on the open block's state AND evaluates every
+		// per-op monitor of the correspondence phase (exactness, payouts = rewards accrued up to now — here accrued from the
+		// REAL begin-blocker allocations —, fresh starting infos, third parties, chain frame, allowance frame, truthful
+		// refusals, failed op changes nothing, invariants); its observation line is not compared with the model here
+		kind := strings.SplitN(w.apply(b.line), " | ", 2)[0]
+		if w.dead {
 			return nil
-		} else {
-			out[i] = "reverted:" + e
+		}
+		switch {
+		case kind == "ok":
+			out[i] = "ok"
+		case kind == "panic":
+			w.violate("a staking-precompile transaction panicked inside a real block: " + b.line)
+			return nil
+		default:
+			out[i] = "reverted:" + kind
 		}
 		w.out.Count("blocktx:" + b.kind + "/" + strings.SplitN(out[i], ":", 2)[0])
 	}
